@@ -946,9 +946,17 @@ def acc_w2p(cx, g, gcp, case):
             sc = world_scale(A, (ny, nx))
             smin = abs(det) / max(abs(A[0]) + abs(A[1]) + abs(A[3]) + abs(A[4]), F(1, 10**300))
             tol = F(1, 10**9) * (max(nx, ny, 1) + F(sc) / max(smin, F(1, 10**300)))
+            bad = abs(F(float(q[0])) - pf[0]) > tol or abs(F(float(q[1])) - pf[1]) > tol
         else:
-            tol = F(1, 10**3) * max(nx, ny, 1) if gcp["B"] is None else F(1, 10**4) * max(nx, ny, 1)
-        if abs(F(float(q[0])) - pf[0]) > tol or abs(F(float(q[1])) - pf[1]) > tol:
+            # judged in the pixel space of the control points: the fitted inverse polynomial is an independent
+            # fit (error well below 0.05 px inside the control-point grid; exact up to 1e-4 px for affine GCPs)
+            m0, m1 = fa_apply(A, pf), fa_apply(A, (F(float(q[0])), F(float(q[1]))))
+            ny0, nx0 = gcp["shape0"]
+            if gcp["B"] is None and not (0 <= m0[0] <= nx0 and 0 <= m0[1] <= ny0):
+                continue
+            tol = F(1, 10**4) * max(nx0, ny0) if gcp["B"] is not None else F(5, 100)
+            bad = abs(m1[0] - m0[0]) > tol or abs(m1[1] - m0[1]) > tol
+        if bad:
             return False, f"wld2pix(world of pixel {tuple(map(float, p))}) = {tuple(map(float, q))}"
     return True, ""
 
@@ -1518,7 +1526,7 @@ def gcp_stream(R: Run, ops: Ops, cxE: Ctx, cxF: Ctx):
         B = Affine.translation(5e5 + rng.randint(0, 1000), 6e6 - rng.randint(0, 1000)) * L
         affine_gcps = rng.random() < 0.6
         mapping = build_gcp_mapping(GCP, ny, nx, B, affine_gcps)
-        gctx = {"mapping": mapping, "B": fa(B) if affine_gcps else None,
+        gctx = {"mapping": mapping, "B": fa(B) if affine_gcps else None, "shape0": (ny, nx),
                 "desc": f"{ny} {nx} {enc_aff(B)} {int(affine_gcps)}"}
         g0 = GCP.GCPGeoBox((ny, nx), mapping)
         g = g0
@@ -1707,7 +1715,17 @@ def replay(R: Run, rec) -> int:
     cx = Ctx(R2, all(F(v).denominator & (F(v).denominator - 1) == 0 for v in tuple(g._affine)[:6]) and key not in
              ("zoom-to-int-longest-side", "zoom-to-int-shape"))
     cx.exact = False if key in ("bbox-misses-corner",) else cx.exact
-    if op == "views":
+    if op == "acc-views":
+        check_accessors(cx, g)
+    elif op == "gcp-acc-views" and args:
+        ny0, nx0, baff, flag = args.split(" ")
+        B = Affine(*[float(F(v)) for v in baff.split(";")])
+        mapping = build_gcp_mapping(GCP, int(ny0), int(nx0), B, flag == "1")
+        gg = GCP.GCPGeoBox(tuple(map(int, g.shape)), mapping, g._affine)
+        print("GCP view:", gg, "pixel-side affine", tuple(g._affine)[:6], "control points related by", B, "exactly" if flag == "1" else "+ distortion")
+        check_accessors(Ctx(R2, False), gg, {"mapping": mapping, "B": fa(B) if flag == "1" else None,
+                                             "shape0": (int(ny0), int(nx0)), "desc": args})
+    elif op == "views":
         check_base_views(cx, g, TNI)
         print("boundingbox:", g.boundingbox)
         print("extent:", g.extent.exterior.points if min(g.shape) > 0 else None)
